@@ -274,8 +274,13 @@ func symSprintf(fr *frame, format string, args []value, wraps *[]iface) string {
 			raw = ai.v
 			// named numeric types with methods keep their methods: only unwrap plain symbolic payloads
 			if isSym(raw) || isSymStr(raw) {
-				if m := lookupMethodByName(i, ai.t, "String"); m != nil && m.Blocks != nil {
-					panic(unsupported("Stringer on symbolic value"))
+				if m := lookupMethodByName(i, ai.t, "String"); m != nil && m.Blocks != nil && m.Signature.Params().Len() == 0 && (verb == 'v' || verb == 's') {
+					s := call(i, nil, 0, m, []value{raw})
+					if ss, ok := s.(string); ok {
+						sb.WriteString(ss)
+						continue
+					}
+					panic(unsupported("String() on symbolic value returned %T", s))
 				}
 				if m := lookupMethodByName(i, ai.t, "Error"); m != nil && m.Blocks != nil {
 					s := call(i, nil, 0, m, []value{raw})
@@ -585,18 +590,21 @@ func init() {
 			noAtoms("strings.ContainsRune", a[0])
 			return strings.ContainsRune(a[0].(string), a[1].(rune))
 		},
-		"strings.Index":      str2("strings.Index", func(a, b string) value { return strings.Index(a, b) }),
-		"strings.LastIndex":  str2("strings.LastIndex", func(a, b string) value { return strings.LastIndex(a, b) }),
-		"strings.TrimSpace":  str1("strings.TrimSpace", func(a string) value { return strings.TrimSpace(a) }),
-		"strings.Trim":       str2("strings.Trim", func(a, b string) value { return strings.Trim(a, b) }),
-		"strings.TrimLeft":   str2("strings.TrimLeft", func(a, b string) value { return strings.TrimLeft(a, b) }),
-		"strings.TrimRight":  str2("strings.TrimRight", func(a, b string) value { return strings.TrimRight(a, b) }),
-		"strings.TrimPrefix": str2("strings.TrimPrefix", func(a, b string) value { return strings.TrimPrefix(a, b) }),
-		"strings.TrimSuffix": str2("strings.TrimSuffix", func(a, b string) value { return strings.TrimSuffix(a, b) }),
-		"strings.ToUpper":    str1("strings.ToUpper", func(a string) value { return strings.ToUpper(a) }),
-		"strings.ToLower":    str1("strings.ToLower", func(a string) value { return strings.ToLower(a) }),
-		"strings.Count":      str2("strings.Count", func(a, b string) value { return strings.Count(a, b) }),
-		"strings.EqualFold":  str2("strings.EqualFold", func(a, b string) value { return strings.EqualFold(a, b) }),
+		"strings.ContainsAny": str2("strings.ContainsAny", func(a, b string) value { return strings.ContainsAny(a, b) }),
+		"strings.IndexAny":    str2("strings.IndexAny", func(a, b string) value { return strings.IndexAny(a, b) }),
+		"strings.Title":       str1("strings.Title", func(a string) value { return strings.Title(a) }),
+		"strings.Index":       str2("strings.Index", func(a, b string) value { return strings.Index(a, b) }),
+		"strings.LastIndex":   str2("strings.LastIndex", func(a, b string) value { return strings.LastIndex(a, b) }),
+		"strings.TrimSpace":   str1("strings.TrimSpace", func(a string) value { return strings.TrimSpace(a) }),
+		"strings.Trim":        str2("strings.Trim", func(a, b string) value { return strings.Trim(a, b) }),
+		"strings.TrimLeft":    str2("strings.TrimLeft", func(a, b string) value { return strings.TrimLeft(a, b) }),
+		"strings.TrimRight":   str2("strings.TrimRight", func(a, b string) value { return strings.TrimRight(a, b) }),
+		"strings.TrimPrefix":  str2("strings.TrimPrefix", func(a, b string) value { return strings.TrimPrefix(a, b) }),
+		"strings.TrimSuffix":  str2("strings.TrimSuffix", func(a, b string) value { return strings.TrimSuffix(a, b) }),
+		"strings.ToUpper":     str1("strings.ToUpper", func(a string) value { return strings.ToUpper(a) }),
+		"strings.ToLower":     str1("strings.ToLower", func(a string) value { return strings.ToLower(a) }),
+		"strings.Count":       str2("strings.Count", func(a, b string) value { return strings.Count(a, b) }),
+		"strings.EqualFold":   str2("strings.EqualFold", func(a, b string) value { return strings.EqualFold(a, b) }),
 		"strings.Repeat": func(fr *frame, a []value) value {
 			noAtoms("strings.Repeat", a[0])
 			n := fr.i.ex.concreteSize(a[1], "strings.Repeat count")
